@@ -112,7 +112,30 @@ KERNELS_R = [dict(name="K_rt_first_ray", file="src/recon_buildblock/ProjMatrixBy
                   func=r"ProjMatrixByBinUsingRayTracing::calculate_proj_matrix_elems_for_one_bin\(ProjMatrixElemsForOneBin& lor\) const",
                   span=(r"float current_s_in_mm = ", r";"), c_header="float K_rt_first_ray(const float s_in_mm, const float s_inc, const int num_tangential_LORs)", loops=0,
                   rules=[(r"float current_s_in_mm = ", "const float K_first = ", 1)], post="return K_first;")]
-KERNELS += KERNELS_B + KERNELS_I + KERNELS_R
+# the constructor of DataSymmetriesForBins_PET_CartesianGrid: which symmetry switches survive (the class invariant SYM_VALID that
+# lemma_symmetry and the C06 kernels assume). Float / dynamic_cast conditions become nondeterministic booleans.
+DS_CXX = "src/recon_buildblock/DataSymmetriesForBins_PET_CartesianGrid.cxx"
+CTOR = r"DataSymmetriesForBins_PET_CartesianGrid::DataSymmetriesForBins_PET_CartesianGrid\([^)]*\)"
+FLOATCOND = (r"fabs\((?:[^()]|\((?:[^()]|\((?:[^()]|\([^()]*\))*\))*\))*\)\s*>\s*[\d.]+(?:E-?\d+)?F", "K_float_cond()", None)
+KERNELS_C = [
+    dict(name="K_sym_ctor_init", file=DS_CXX, cxx_name="DataSymmetriesForBins_PET_CartesianGrid constructor: member initialisers + the block for subset data",
+         func=CTOR, init_list=True, span=(r"if \(!is_null_ptr\(subset_proj_data_info_ptr\)\)", r"do_symmetry_180degrees_min_phi = false;\s*\}"),
+         c_header="void K_sym_ctor_init(struct SYM* self, const _Bool do_symmetry_90degrees_min_phi_v, const _Bool do_symmetry_180degrees_min_phi_v, const _Bool do_symmetry_swap_segment_v, "
+                  "const _Bool do_symmetry_swap_s_v, const _Bool do_symmetry_shift_z_v)", loops=0,
+         rules=[(r"self->DataSymmetriesForBins = proj_data_info_ptr;", "", 1), (r"self->do_symmetry_shift_z = do_symmetry_shift_z;", "self->do_symmetry_shift_z = do_symmetry_shift_z_v;", 1),
+                (r"!is_null_ptr\(subset_proj_data_info_ptr\)", "g_is_subset", 1),
+                (r"if \(is_null_ptr\(\s*dynamic_cast<const ProjDataInfoCylindrical\*>\(subset_proj_data_info_ptr->get_original_proj_data_info_sptr\(\)\.get\(\)\)\)\)\s*error\([^;]*;",
+                 "if (K_float_cond()) K_THROW_VOID;", 1),
+                (r'warning\("[^"]*"\);', "(void)0;", 1), SYMMEMBERS]),
+    dict(name="K_sym_ctor_flags", file=DS_CXX, cxx_name="DataSymmetriesForBins_PET_CartesianGrid constructor, cylindrical branch: from the voxel-size test to the last switch-off",
+         func=CTOR, span=(r"if \(fabs\(cartesian_grid_info_ptr->get_grid_spacing\(\)\[2\]", r"= this->do_symmetry_swap_s = false;\s*\}\s*\}"),
+         c_header="void K_sym_ctor_flags(struct SYM* self)", loops=1,
+         rules=[(r"num_views = proj_data_info_ptr->get_num_views\(\);", "num_views = g_pdi_num_views;", 1), FLOATCOND,
+                (r"min\(proj_data_info_ptr->get_max_segment_num\(\), -proj_data_info_ptr->get_min_segment_num\(\)\)", "g_num_segment_pairs", 1),
+                (r'\berror\((?:"[^"]*"|[^;"])*\);', "K_THROW_VOID;", 3), (r'\binfo\("[^"]*"\);', "(void)0;", (4, 6)),
+                (r"proj_data_info_ptr->is_tof_data\(\)", "g_is_tof", 1), (r"\bthis->", "self->", (10, 30)), SYMMEMBERS]),
+]
+KERNELS += KERNELS_B + KERNELS_I + KERNELS_R + KERNELS_C
 
 
 def extra_gen(repo, gen_dir, metas):
@@ -217,6 +240,14 @@ def jobs(tier, gen_dir):
                        flags=["--float-overflow-check", "--nan-check"], timeout=900, min_obligations=2, backend="sat", defines={"C03_NRAYS": n}, params={"num_tangential_LORs": n}))
     out.append(Job("c03/canary/K_rt_first_ray", HARNESS_I, "h_K_rt_first_ray", enforce="K_rt_first_ray", kernels=["K_rt_first_ray"], kind="canary",
                    defines={"CANARY_K_rt_first_ray": None, "C03_NRAYS": 2}, expect_fail=r"K_rt_first_ray\.postcondition", no_base_flags=True, timeout=300))
+    out.append(Job("c03/K_sym_ctor_init", HARNESS_I, "h_K_sym_ctor_init", enforce="K_sym_ctor_init", kernels=["K_sym_ctor_init"], flags=CH, no_base_flags=True, timeout=120,
+                   min_obligations=3, backend="kissat"))
+    out.append(Job("c03/K_sym_ctor_flags", HARNESS_I, "h_K_sym_ctor_flags", enforce="K_sym_ctor_flags", kernels=["K_sym_ctor_flags"], flags=CH, no_base_flags=True, timeout=120,
+                   min_obligations=3, backend="kissat", loop_contracts=True))
+    out.append(Job("c03/lemma_sym_valid", HARNESS_I, "h_lemma_sym_valid", kind="lemma", kernels=["K_sym_ctor_init", "K_sym_ctor_flags"], replace=["K_sym_ctor_init", "K_sym_ctor_flags"],
+                   flags=CH, no_base_flags=True, timeout=120, min_obligations=2, backend="kissat"))
+    out.append(Job("c03/canary/K_sym_ctor_flags", HARNESS_I, "h_K_sym_ctor_flags", enforce="K_sym_ctor_flags", kernels=["K_sym_ctor_flags"], kind="canary", loop_contracts=True,
+                   defines={"CANARY_K_sym_ctor_flags": None}, expect_fail=r"K_sym_ctor_flags\.postcondition", no_base_flags=True, timeout=120))
     out.append(Job("c03/canary/K_op_swap_xy_yx_img", HARNESS_I, "h_K_op_swap_xy_yx_img", enforce="K_op_swap_xy_yx_img", kernels=["K_op_swap_xy_yx_img"], kind="canary",
                    defines={"CANARY_K_op_swap_xy_yx_img": None}, expect_fail=r"K_op_swap_xy_yx_img\.postcondition", no_base_flags=True, timeout=120))
     out.append(Job("c03/canary/lemma_img_injective", HARNESS_I, "h_lemma_img_injective_swap_xy_yx", kind="canary", kernels=[], defines={"LEMMA_CANARY": None, "CONTRACTS_OFF": None},
